@@ -79,7 +79,8 @@ func parseSuper(blob []byte) (magic csMagic, items []superItem, err error) {
 			return 0, nil, errShort
 		}
 		length := int(binary.BigEndian.Uint32(blob[offset+4:]))
-		if offset+length > len(blob) {
+		// the length counts the item's own 8-byte header
+		if length < 8 || offset+length > len(blob) {
 			return 0, nil, errShort
 		}
 		items = append(items, superItem{
